@@ -68,6 +68,16 @@ func (l *Linter) lintBlockStatement(block *ast.BlockStatement, ctx *context.Cont
 	l.ignore.SetupBlockStatement(block.GetMeta())
 	defer l.ignore.TeardownBlockStatement(block.GetMeta())
 
+	// The file in which this block is written stays on the include path while the block is linted,
+	// otherwise a module which includes itself from a nested block would be expanded forever
+	if file := block.GetMeta().Token.File; file != "" && !l.including[file] {
+		if l.including == nil {
+			l.including = make(map[string]bool)
+		}
+		l.including[file] = true
+		defer delete(l.including, file)
+	}
+
 	statements := l.resolveIncludeStatements(block.Statements, ctx, false)
 	for _, stmt := range statements {
 		func(v ast.Statement, c *context.Context) {
